@@ -409,6 +409,13 @@ def c03_items(tier, rnd):
                         P["usage"] = stag
                         P["conc"] = "int" if (t in bf.BINOPS or t in bf.UNOPS or t.endswith("Assign") or t == "Copy") else "any"
                         Ps.append(P)
+                        # Clone with Copy derived next to it (before / after it in the list): the Clone impl keeps its own default bounds
+                        if t == "Clone" and len(Ps) % 3 == 0:
+                            P3 = copy.deepcopy(P)
+                            P3["D"] = ["Copy", "Clone"] if len(Ps) % 2 else ["Clone", "Copy"]
+                            P3["conc"] = "int"
+                            P3["usage"] = str(stag) + "+copy"
+                            Ps.append(P3)
                         # the same item with every USE of a parameter spelled as a raw identifier (`r#T1`): it is the same parameter
                         if len(Ps) % 6 == 0:
                             P2 = copy.deepcopy(P)
